@@ -19,10 +19,20 @@
 # OTHERWISE) ARISING IN ANY WAY OUT OF THE USE OF THIS SOFTWARE, EVEN IF ADVISED OF THE POSSIBILITY OF SUCH
 # DAMAGE.
 
+import decimal
 import typing
 from builtins import *
 
 import canmatrix
+
+
+def format_factor(factor):
+    # type: (typing.Any) -> str
+    """Short text of a factor: %g as long as that keeps every digit (it keeps six), else all digits."""
+    text = "%g" % float(factor)
+    if decimal.Decimal(text) != decimal.Decimal(str(factor)):
+        text = str(factor)
+    return text
 
 
 def get_frame_info(db, frame):
@@ -117,7 +127,7 @@ def get_signal(db, frame, sig, motorola_bit_format):
     if sig.unit.strip():
         # factor not 1.0 ?
         if float(sig.factor) != 1:
-            back_array.append("%g" % float(sig.factor) + "  " + sig.unit)
+            back_array.append(format_factor(sig.factor) + "  " + sig.unit)
         # factor == 1.0
         else:
             back_array.append(sig.unit)
@@ -125,7 +135,7 @@ def get_signal(db, frame, sig, motorola_bit_format):
     else:
         # factor not 1.0 ?
         if float(sig.factor) != 1:
-            back_array.append("%g -" % float(sig.factor))
+            back_array.append(format_factor(sig.factor) + " -")
         # factor == 1.0
         else:
             back_array.append("")
